@@ -4,8 +4,8 @@ patch applies, builds with and without the verif tag, the demonstration fails wi
 and the existing suite (root, skiplist, nodetable) passes with it. Writes /tmp/seed/<ID>.out/confirm_<X>.json."""
 import json, os, re, shutil, subprocess, sys, glob, time
 pid, x = sys.argv[1], sys.argv[2]
-out = "/tmp/seed/%s.out" % pid
-wt = "/tmp/confirm/%s%s" % (pid, x)
+out = "%s/%s.out" % (os.environ.get("SEED_ROOT", "/tmp/seed"), pid)
+wt = "/tmp/confirm/%s%s%s" % (pid, x, "r2" if os.environ.get("SEED_ROOT") else "")
 env = dict(os.environ, GOFLAGS="-mod=mod", GOPROXY="off", GOSUMDB="off", GOTOOLCHAIN="local", GOMAXPROCS="4")
 res = {"id": pid, "which": x, "head": subprocess.run(["git", "-C", "/repo", "rev-parse", "--short", "HEAD"], capture_output=True, text=True).stdout.strip()}
 def run(cmd, cwd=wt, timeout=3600):
